@@ -191,6 +191,11 @@ func (k Keeper) BurnEdenBoost(ctx sdk.Context, creator sdk.AccAddress, denom str
 
 	k.SetCommitments(ctx, commitments)
 
+	// Update total commitment
+	params := k.GetParams(ctx)
+	params.TotalCommitted = subTotalCommitted(params.TotalCommitted, sdk.NewCoins(sdk.NewCoin(denom, amount)))
+	k.SetParams(ctx, params)
+
 	if k.hooks != nil {
 		err = k.hooks.CommitmentChanged(ctx, creator, sdk.Coins{sdk.NewCoin(denom, amount)})
 		if err != nil {
